@@ -1088,6 +1088,116 @@ func genPartialGenericFunc(rt *rapid.T, ctr *int, labels map[string]bool) (*lang
 	return f, u
 }
 
+// genTwiceMentionedGroup generates the "one generic union mentioned twice in one type" family: a generic
+// function whose result (or parameter list) mentions OptG at two places, the type variable only at one
+// of them, followed by callers that instantiate it at two different types in one body, or from a
+// caller that is generic itself. Every instantiation has to replace the callee's type variable at
+// every place it occurs, and each call gets its own instance.
+func genTwiceMentionedGroup(rt *rapid.T, ctr *int, labels map[string]bool) []*lang.FuncDecl {
+	g := &fgen{rt: rt, ctr: ctr, labels: labels}
+	I, S, B := lang.TInt, lang.TString, lang.TBool
+	opt := func(t *lang.Type) *lang.Type { return lang.TUnion("OptG", t) }
+	some := func(e *lang.Expr) *lang.Expr { return lang.Call("GSome", opt(e.T), e) }
+	tup := func(es ...*lang.Expr) *lang.Expr {
+		var tsx []*lang.Type
+		for _, e := range es {
+			tsx = append(tsx, e.T)
+		}
+		return &lang.Expr{K: "tuple", T: lang.TTuple(tsx...), Args: es}
+	}
+	X := lang.TVar("x") // the callee's parameter: un-annotated, nothing in the body fixes it
+	callee := &lang.FuncDecl{Name: g.fresh("fn")}
+	x := lang.Var(g.fresh("p"), X)
+	shape := g.n(4, "twiceShape")
+	// slot: which component of the result carries the variable (-1: the result is not a tuple)
+	slot := 1
+	var resOf func(t *lang.Type) *lang.Type
+	switch shape {
+	case 0: // (GSome 0, GSome x)
+		callee.Params = []lang.Param{{Name: x.Name, T: X}}
+		callee.Body = lang.Blk(tup(some(lang.Int(0)), some(x)))
+		resOf = func(t *lang.Type) *lang.Type { return lang.TTuple(opt(I), opt(t)) }
+	case 1: // (GSome x, GSome 0): the variable at the first mention
+		slot = 0
+		callee.Params = []lang.Param{{Name: x.Name, T: X}}
+		callee.Body = lang.Blk(tup(some(x), some(lang.Str("k"))))
+		resOf = func(t *lang.Type) *lang.Type { return lang.TTuple(opt(t), opt(S)) }
+	case 2: // GSome (GSome x)
+		slot = -1
+		callee.Params = []lang.Param{{Name: x.Name, T: X}}
+		callee.Body = lang.Blk(some(some(x)))
+		resOf = func(t *lang.Type) *lang.Type { return opt(opt(t)) }
+	case 3: // (d:OptG<int>) x -> (d, GSome x)
+		d := lang.Var(g.fresh("p"), opt(I))
+		callee.Params = []lang.Param{{Name: d.Name, T: opt(I), Annot: true}, {Name: x.Name, T: X}}
+		callee.Body = lang.Blk(tup(d, some(x)))
+		resOf = func(t *lang.Type) *lang.Type { return lang.TTuple(opt(I), opt(t)) }
+	default: // (GSome [x], GSome 0, GSome x): three mentions, the variable at the first and the last
+		slot = 2
+		callee.Params = []lang.Param{{Name: x.Name, T: X}}
+		callee.Body = lang.Blk(tup(some(&lang.Expr{K: "slice", T: sl(X), Args: []*lang.Expr{x}}), some(lang.Int(0)), some(x)))
+		resOf = func(t *lang.Type) *lang.Type { return lang.TTuple(opt(sl(t)), opt(I), opt(t)) }
+	}
+	callee.Ret = resOf(X)
+	labels["generic function whose type mentions one generic union at several places"] = true
+	out := []*lang.FuncDecl{callee}
+	// one call of the callee at type t with argument a, bound so that the part carrying t gets a name
+	call := func(st *[]*lang.Stmt, a *lang.Expr) *lang.Expr {
+		args := []*lang.Expr{a}
+		if shape == 3 {
+			args = []*lang.Expr{some(lang.Int(int64(g.n(9, "dArg")))), a}
+		}
+		c := lang.Call(callee.Name, resOf(a.T), args...)
+		name := g.fresh("v")
+		if slot < 0 {
+			*st = append(*st, lang.Let(name, c))
+			return lang.Var(name, c.T)
+		}
+		names := make([]string, len(c.T.E))
+		for i := range names {
+			names[i] = "_"
+		}
+		names[slot] = name
+		*st = append(*st, &lang.Stmt{K: "letd", Names: names, E: c})
+		return lang.Var(name, c.T.E[slot])
+	}
+	base := []*lang.Type{S, B, I, sl(S), lang.TTuple(I, S)}
+	ncallers := 1 + g.n(1, "nTwiceCallers")
+	for k := 0; k < ncallers; k++ {
+		f := &lang.FuncDecl{Name: g.fresh("fn")}
+		var st []*lang.Stmt
+		var parts []*lang.Expr
+		kind := g.n(2, "twiceCaller")
+		switch kind {
+		case 0, 1: // two or three instantiations in one body
+			n := 2 + g.n(1, "nInst")
+			off := g.n(len(base)-1, "instOffset")
+			for j := 0; j < n; j++ {
+				t := base[(off+j)%len(base)]
+				p := lang.Param{Name: g.fresh("p"), T: t, Annot: kind == 0 || g.n(1, "instAnnot") == 0}
+				f.Params = append(f.Params, p)
+				parts = append(parts, call(&st, lang.Var(p.Name, t)))
+			}
+			labels["one generic function instantiated at several types in one body"] = true
+		default: // a generic caller: its own variables next to the callee's
+			a := lang.Param{Name: g.fresh("p"), T: lang.TVar("a")}
+			b := lang.Param{Name: g.fresh("p"), T: lang.TVar("b")}
+			f.Params = []lang.Param{a, b}
+			pb := call(&st, lang.Var(b.Name, b.T))
+			parts = []*lang.Expr{lang.Var(a.Name, a.T), pb}
+			if g.n(1, "genericCallerTwice") == 0 {
+				parts = append(parts, call(&st, lang.Var(a.Name, a.T)))
+			}
+			labels["generic caller of a generic function"] = true
+		}
+		res := tup(parts...)
+		f.Ret = res.T
+		f.Body = &lang.Block{Stmts: st, Final: res}
+		out = append(out, f)
+	}
+	return out
+}
+
 func hasTVar(t *lang.Type) bool {
 	if t == nil {
 		return false
@@ -1355,7 +1465,11 @@ func genCase(rt *rapid.T) (Case, map[string]bool, int, error) {
 	for i := 0; i < nf; i++ {
 		var f *lang.FuncDecl
 		var u *userFn
-		if k := rapid.IntRange(0, 6).Draw(rt, "staged"); k == 6 {
+		if k := rapid.IntRange(0, 7).Draw(rt, "staged"); k == 7 {
+			// none of these is offered as a callee to the random bodies (their intended types are not ground)
+			funcs = append(funcs, genTwiceMentionedGroup(rt, &ctr, labels)...)
+			continue
+		} else if k == 6 {
 			f, u = genPartialGenericFunc(rt, &ctr, labels)
 		} else if k == 0 {
 			f, u = genStagedFunc(rt, &ctr, labels)
